@@ -16,6 +16,9 @@
 (*                     application payload and every setting                                                  *)
 (*    ReExport         building again from what was recovered gives the same regions; bytes may differ only   *)
 (*                     inside signature fields (and fields computed over a signature)                         *)
+(*    History          (last section) a builder object has a history - exported, changed, configured again,  *)
+(*                     parsed: EVERY export of a history is the export of a fresh object with the settings    *)
+(*                     of that moment (Offers / After / HistoryClauseOf; MC + GEN in MbiHist, TV in MbiTrace)  *)
 EXTENDS Naturals, Integers, Sequences, FiniteSets, TLC
 
 VARIABLES cls, x
@@ -177,4 +180,50 @@ IskRange(v) == IF v.iskLen > 0 THEN LET e == OffsetOf(Final(v), "cert") + v.cert
                  \cup (IF HasReg(Final(v), "digest") THEN {<<OffsetOf(Final(v), "digest"), OffsetOf(Final(v), "digest") + DigestLen(v)>>} ELSE {})
                ELSE {}
 Inside(d, ranges) == \A b \in d[1]..(d[2] - 1) : \E r \in ranges : r[1] <= b /\ b < r[2]     \* byte-wise: neighbouring fields may merge into one observed range
+
+\* ------------------------------------------------------------------ the object's history
+(* A builder object outlives one export: it is exported, changed and exported again, configured a second time,   *)
+(* or it is itself the result of parsing an earlier export.  The abstract state of one object is                 *)
+(*     x    : the settings it holds NOW (the same record as the abstract input)                                  *)
+(*     last : [k |-> "some", v |-> the settings it held at its last export]   (NoExport before the first one)    *)
+(* An action is a record [ev |-> name, ...]:                                                                     *)
+(*     Export                      the object is serialised (its settings stay)                                  *)
+(*     SetApp(len, tail)           the application is replaced by one of another length class                    *)
+(*     SetTz(tz, tzLen) / ClearTz  TrustZone default / custom preset / disabled (where the composition has it)   *)
+(*     SetKs / ClearKs             key store supplied / removed (where the composition has one)                  *)
+(*     Reconfigure(to)             the same object is configured again with another option set of its class      *)
+(*     Parse                       the object is replaced by what a reader recovers from its last export         *)
+(* What the format says about a history is ONE clause (HistoryClause in MbiHist, the T-actions of MbiTrace):     *)
+(*     EVERY export of a history is the export of a FRESH object holding the current settings                    *)
+(* - the regions are Final(x), the four words are Ivt(x), the reader's cuts recover x - whatever was exported,   *)
+(* read or changed before.  Nothing an object worked out for an earlier export may survive a change.             *)
+NoExport == [k |-> "none"]
+Exported(v) == [k |-> "some", v |-> v]
+Norm(v) == [v EXCEPT !.appLen = App(v)]          \* what a reader gives back: the payload padded to a word, every setting as it was
+Offers(v, lst, a) ==
+  CASE a.ev = "Export"      -> TRUE
+    [] a.ev = "SetApp"      -> a.len >= 56 /\ (HmacF => a.len >= 64) /\ a.len # v.appLen /\ a.tail \in {"plain", "marker"}
+    [] a.ev = "SetTz"       -> /\ TzMode # "none" /\ a.tz \in {"enabled", "custom"}
+                               /\ (a.tz = "custom" <=> a.tzLen > 0) /\ (a.tz = "enabled" => v.tz # "enabled")
+    [] a.ev = "ClearTz"     -> TzMode = "opt" /\ v.tz # "disabled"
+    [] a.ev = "SetKs"       -> Has("KeyStore") /\ ~v.ks
+    [] a.ev = "ClearKs"     -> Has("KeyStore") /\ v.ks
+    [] a.ev = "Reconfigure" -> InDomain(a.to) /\ a.to # v
+    [] a.ev = "Parse"       -> lst.k = "some"
+    [] OTHER -> FALSE
+After(v, lst, a) ==
+  CASE a.ev = "SetApp"      -> [v EXCEPT !.appLen = a.len, !.tail = a.tail]
+    [] a.ev = "SetTz"       -> [v EXCEPT !.tz = a.tz, !.tzLen = a.tzLen]
+    [] a.ev = "ClearTz"     -> [v EXCEPT !.tz = "disabled", !.tzLen = 0]
+    [] a.ev = "SetKs"       -> [v EXCEPT !.ks = TRUE]
+    [] a.ev = "ClearKs"     -> [v EXCEPT !.ks = FALSE]
+    [] a.ev = "Reconfigure" -> a.to
+    [] a.ev = "Parse"       -> Norm(lst.v)
+    [] OTHER -> v                                  \* Export
+LastAfter(v, lst, a) == IF a.ev = "Export" THEN Exported(v) ELSE lst
+\* what an export of an object holding v must be, and the clause every export of every history has to meet
+ExportOf(v) == [img |-> Final(v), ivt |-> Ivt(v)]
+HistoryClauseOf(v) == InDomain(v) /\ HeaderDescribesOf(v) /\ RoundTripOf(v)
+\* actions that change how long the image is (the length word and every offset behind the change must follow)
+ChangesLength(v, lst, a) == Sum(Final(After(v, lst, a))) # Sum(Final(v))
 =============================================================================
